@@ -65,6 +65,7 @@ def parseOp : List String → Option Op
       let c ← container? c3
       let ok ← if prog = "ok" then some true else if prog = "missing" then some false else none
       some (.spawn ok ([a, .ignore, b] ++ (if c3 = "-" then [] else [c])))
+  | ["fork"] => some .fork
   | ["end"] => some .end_
   | _ => none
 
